@@ -25,6 +25,7 @@ type MemSock struct {
 	TCP  bool
 	Poll time.Duration // fallback retry period while a frame waits for the client
 	OnTx func(Frame)   // called for every frame the client transmits (after the Out event)
+	OnIn func(Frame)   // called when the client has taken a frame (under the recorder lock)
 
 	mu       sync.Mutex
 	rxq      []Frame
@@ -74,6 +75,9 @@ func (s *MemSock) pump() {
 		try := func() bool {
 			select {
 			case s.in <- f.Srv:
+				if s.OnIn != nil {
+					s.OnIn(f)
+				}
 				return true
 			default:
 				return false
